@@ -14,7 +14,11 @@ trap restore EXIT
 if ! git apply --whitespace=nowarn "$patch"; then echo "PATCH DOES NOT APPLY: $patch"; exit 8; fi
 cd "$VROOT"
 for p in "$@"; do
+  # evidence written while a seeded change is applied must not replace the evidence of the unchanged tree
+  sav=$(mktemp -d); cp -a evidence/$p.json $sav/ 2>/dev/null; [ -d evidence/replay/$p ] && cp -a evidence/replay/$p $sav/replay
   out=$(./check "$p" "$tier" 2>&1); rc=$?
+  rm -rf evidence/replay/$p; [ -d $sav/replay ] && cp -a $sav/replay evidence/replay/$p
+  [ -f $sav/$p.json ] && cp -a $sav/$p.json evidence/$p.json; rm -rf $sav
   sig=$(echo "$out" | grep -m3 "signature:" | sed 's/^ *signature: //' | tr '\n' '|' | cut -c1-300)
   inc=$(echo "$out" | grep -m1 "^INCONCLUSIVE" | cut -c1-200)
   echo "$p exit=$rc $sig $inc"
